@@ -142,12 +142,14 @@ def processSample (law : Law) (load : Vec) : Nat → State → State × HPoint
             (noteStrain st p, p)
       | _ => (st, primary law load)          -- unreachable (iz > ir ≥ 1 and iz = |res|)
 
-/-- `_hcm_update_min_max_strain_values` -/
+/-- `_hcm_update_min_max_strain_values`: the running strain extremes are kept for every assessment
+point separately (element-wise maximum / minimum); which of the two is updated is decided by the
+first point's loads. -/
 def updateLF (st : State) (previousLoad cur : Int) (p : HPoint) : State :=
   if previousLoad < cur then
-    { st with eMaxLF := if rep st.eMaxLF > rep p.strain then st.eMaxLF else p.strain }
+    { st with eMaxLF := vzip max st.eMaxLF p.strain }
   else
-    { st with eMinLF := if rep st.eMinLF < rep p.strain then st.eMinLF else p.strain }
+    { st with eMinLF := vzip min st.eMinLF p.strain }
 
 /-- One iteration of the loop in `_perform_hcm_algorithm`. -/
 def turnStep (law : Law) (acc : State × Int) (load : Vec) : State × Int :=
@@ -175,9 +177,22 @@ def process (law : Law) (st : State) (samples : List Vec) (flush : Bool) : State
   { r.1 with prevLoad := r.2 }
 
 /-- `_adjust_samples_and_flush_for_hcm_first_run`: prepend a zero load step; flush iff the last
-sample is a turning point of the zero-prefixed sequence continued by the sequence itself (what the
-second run will feed). -/
+sample is a turning point of the doubled (zero-prefixed) sequence - i.e. of the zero-prefixed sequence
+followed by ANOTHER zero and the sequence.  (This is what the code does; see `adjustFirstRunR`.) -/
 def adjustFirstRun (samples : List Vec) : List Vec × Bool :=
+  let nNodes := (samples.headD []).length
+  let s' := List.replicate nNodes 0 :: samples
+  let reps := s'.map rep
+  let turnIdx := (findTurns (reps ++ reps)).map (·.1)
+  (s', turnIdx.contains (s'.length - 1))
+
+/-- REPAIRED VARIANT, NOT THE CODE: the flush decision taken on the zero-prefixed sequence continued
+by the sequence itself (what the second run really feeds).  With it the last sample of a sequence
+with two distinct values is always flushed in the first run (`flush_of_twoDistinct`) and the second
+pass counts exactly the closed cycles of the repeated sequence.  The code cannot be repaired this way
+without breaking its regression test `TestFKMMemory1Inner::test_strain_values` (DESIGN 9.3), so the
+difference is recorded as the open finding `first-run-defers-last-sample`. -/
+def adjustFirstRunR (samples : List Vec) : List Vec × Bool :=
   let nNodes := (samples.headD []).length
   let s' := List.replicate nNodes 0 :: samples
   let reps := s'.map rep
@@ -198,6 +213,13 @@ def dropTrailingNonReversals (samples : List Vec) : List Vec :=
 def twoPass (law : Law) (samples : List Vec) : State :=
   let samples := dropTrailingNonReversals samples
   let (s1, flush) := adjustFirstRun samples
+  let st := process law {} s1 flush
+  process law st samples true
+
+/-- the two passes with the repaired first-run flush decision (`adjustFirstRunR`; NOT the code) -/
+def twoPassR (law : Law) (samples : List Vec) : State :=
+  let samples := dropTrailingNonReversals samples
+  let (s1, flush) := adjustFirstRunR samples
   let st := process law {} s1 flush
   process law st samples true
 
